@@ -30,7 +30,7 @@ def c03_modify(inp, obligation):
     r = K.modify_according_to_levelvec(o, inp["m"], d, inp["max_level"], list(inp["levelvec"]))
     out = {"result": r}
     bad = []
-    if not (l - r >= o.lmin[d]):
+    if inp.get("_property") == "C04" and not (l - r >= o.lmin[d]):      # exactness of the initial scheme: C04's clause, not C03's
         bad.append("selected level %d below lmin %d" % (l - r, o.lmin[d]))
     if not (r >= 0):
         bad.append("negative subtraction value %d" % r)
@@ -56,6 +56,8 @@ def main():
                 __import__("bounded." + name[:-3])
         import bounded.replay_models as rm   # the registry lives in the imported module, not in __main__
         i = inp.get("input") or {}
+        if isinstance(i, dict):
+            i["_property"] = inp.get("property")
         h = rm.HANDLERS.get(i.get("kind"))
         if h is None:
             res["detail"] = "no native replay handler for %r" % i.get("kind")
@@ -70,8 +72,12 @@ def main():
             except Exception as e:  # noqa
                 # obligation `returns-normally#<Exc>`: the contract says the real function does not raise under its precondition
                 exc = ob.split("returns-normally#")[1].split("@")[0] if "returns-normally#" in ob else None
+                lib = api.library_failure(e)
                 if exc is not None and type(e).__name__ == exc.split(".")[-1]:
                     res = {"reproduced": True, "detail": "the real function raises %s: %s" % (type(e).__name__, e)}
+                elif lib is not None:
+                    # the real code raises on the counter-model's input (inside the library, or it left an object without an attribute the clause reads)
+                    res = {"reproduced": True, "detail": "the real code fails on this input: %s: %s (at %s)" % (type(e).__name__, e, lib[0])}
                 else:
                     raise
     except Exception as e:  # noqa
